@@ -470,3 +470,101 @@ func Render(t *rapid.T, v any, permute bool) []byte {
 	rec(v)
 	return []byte(sb.String())
 }
+
+// HostileTokens are JSON values of every type in their shortest and oddest spellings.
+var HostileTokens = []string{"7", "0", "-1", "-0", "1e3", "1.5", "1E400", "12345678901234567890", "true", "false", "null", `""`, `"x"`, `" "`, `"7"`, `"2020-01-01"`, `"\u0000"`,
+	"[]", "{}", "[null]", "[[]]", `{"":null}`, `[7]`, `["x"]`}
+
+// jsonSlots lists setters for every object member and array element below v (document order).
+func jsonSlots(v any) []func(any) {
+	var slots []func(any)
+	var walk func(node any)
+	walk = func(node any) {
+		switch x := node.(type) {
+		case map[string]any:
+			keys := make([]string, 0, len(x))
+			for k := range x {
+				keys = append(keys, k)
+			}
+			sort.Strings(keys)
+			for _, k := range keys {
+				k := k
+				slots = append(slots, func(nv any) { x[k] = nv })
+				walk(x[k])
+			}
+		case []any:
+			for i := range x {
+				i := i
+				slots = append(slots, func(nv any) { x[i] = nv })
+				walk(x[i])
+			}
+		}
+	}
+	walk(v)
+	return slots
+}
+
+// CountSlots is the number of nodes below the root of a JSON tree.
+func CountSlots(v any) int { return len(jsonSlots(deepCopyJSON(v))) }
+
+// SwapAt returns a deep copy of v with node number at replaced by the raw token.
+func SwapAt(v any, at int, token string) any {
+	cp := deepCopyJSON(v)
+	if slots := jsonSlots(cp); at < len(slots) {
+		slots[at](json.Number(token))
+	}
+	return cp
+}
+
+// SwapNodes returns a deep copy of a JSON tree in which one to three nodes (object
+// members, array elements, possibly the root) are replaced by hostile tokens: the
+// document stays well-formed JSON, single values are of an unexpected type or spelling.
+func SwapNodes(t *rapid.T, v any) any {
+	cp := deepCopyJSON(v)
+	slots := jsonSlots(cp)
+	if len(slots) == 0 {
+		return json.Number(rapid.SampledFrom(HostileTokens).Draw(t, "swap_root"))
+	}
+	for i, n := 0, rapid.IntRange(1, 3).Draw(t, "nswaps"); i < n; i++ {
+		slots[rapid.IntRange(0, len(slots)-1).Draw(t, "swap_at")](json.Number(rapid.SampledFrom(HostileTokens).Draw(t, "swap_token")))
+	}
+	return cp
+}
+
+// StretchNumber returns a deep copy of v in which one integral number is replaced by a
+// value just outside the int32 / int64 ranges (ok=false: v holds no integral number).
+func StretchNumber(t *rapid.T, v any) (any, bool) {
+	cp := deepCopyJSON(v)
+	var sets []func(any)
+	var walk func(node any, set func(any))
+	walk = func(node any, set func(any)) {
+		switch x := node.(type) {
+		case map[string]any:
+			keys := make([]string, 0, len(x))
+			for k := range x {
+				keys = append(keys, k)
+			}
+			sort.Strings(keys)
+			for _, k := range keys {
+				k := k
+				walk(x[k], func(nv any) { x[k] = nv })
+			}
+		case []any:
+			for i := range x {
+				i := i
+				walk(x[i], func(nv any) { x[i] = nv })
+			}
+		case json.Number:
+			if set != nil && !strings.ContainsAny(x.String(), ".eE") {
+				sets = append(sets, set)
+			}
+		}
+	}
+	walk(cp, nil)
+	if len(sets) == 0 {
+		return cp, false
+	}
+	tok := rapid.SampledFrom([]string{"2147483648", "-2147483649", "4294967297", "2147483647", "-2147483648", "9223372036854775808", "-9223372036854775809", "18446744073709551616", "32768", "128", "-129"}).Draw(t, "stretched")
+	sets[rapid.IntRange(0, len(sets)-1).Draw(t, "stretch_at")](json.Number(tok))
+	return cp, true
+}
